@@ -569,6 +569,11 @@ pub fn run_ls_check(chk: &LsCheck, tier: &str, seed: u64, stats: &Stats) -> Chec
 }
 
 pub fn replay_ls(prop: &str, case: &Case) -> (Vec<String>, Vec<String>) {
+    // key tables with shared indexes are inside the quantifier of C18 only (the other properties
+    // tell keys apart by their index hash)
+    if prop != "C18" && has_index_collisions(case) {
+        return (vec![], vec!["skipped: colliding key table is outside this property's quantifier".to_string()]);
+    }
     match run_case_caught(case, true) {
         CaseResult::Ok(rep) => (
             rep.failures.iter().filter(|f| f.is_for(prop)).map(|f| format!("[{}] step {}: {}", f.pred, f.step, f.msg)).collect(),
@@ -577,6 +582,12 @@ pub fn replay_ls(prop: &str, case: &Case) -> (Vec<String>, Vec<String>) {
         CaseResult::Panic(p) => (vec![format!("panic: {}", p)], vec![]),
         CaseResult::Harness(h) => (vec![], vec![format!("HARNESS: {}", h)]),
     }
+}
+
+pub fn has_index_collisions(case: &Case) -> bool {
+    let mut idx: Vec<u64> = case.cfg.keys.iter().map(|k| k.0).collect();
+    idx.sort_unstable();
+    idx.windows(2).any(|w| w[0] == w[1])
 }
 
 /// Greedy reduction after proptest's own shrinking: drop ops (chunks, then single ops), simplify
